@@ -734,6 +734,225 @@ let vmodel_parts attr_value is_component argument splitted =
   | Arr elems -> array_form is_component argument splitted elems
   | _ -> ((attr_value, argument), (Some (set_of_list splitted)))
 
+(** val is_assignable : node -> bool **)
+
+let is_assignable v = match v with
+| NObj _ ->
+  let t = ntype v in
+  (||)
+    ((||)
+      ((||)
+        ((||)
+          (sq (String ((Ascii (true, true, false, false, true, false, true,
+            false)), (String ((Ascii (true, false, true, false, true, true,
+            true, false)), (String ((Ascii (false, false, false, false, true,
+            true, true, false)), (String ((Ascii (true, false, true, false,
+            false, true, true, false)), (String ((Ascii (false, true, false,
+            false, true, true, true, false)), (String ((Ascii (false, false,
+            false, false, true, false, true, false)), (String ((Ascii (false,
+            true, false, false, true, true, true, false)), (String ((Ascii
+            (true, true, true, true, false, true, true, false)), (String
+            ((Ascii (false, false, false, false, true, true, true, false)),
+            (String ((Ascii (true, false, true, false, false, false, true,
+            false)), (String ((Ascii (false, false, false, true, true, true,
+            true, false)), (String ((Ascii (false, false, false, false, true,
+            true, true, false)), (String ((Ascii (false, true, false, false,
+            true, true, true, false)), (String ((Ascii (true, false, true,
+            false, false, true, true, false)), (String ((Ascii (true, true,
+            false, false, true, true, true, false)), (String ((Ascii (true,
+            true, false, false, true, true, true, false)), (String ((Ascii
+            (true, false, false, true, false, true, true, false)), (String
+            ((Ascii (true, true, true, true, false, true, true, false)),
+            (String ((Ascii (false, true, true, true, false, true, true,
+            false)), EmptyString)))))))))))))))))))))))))))))))))))))) t)
+          (sq (String ((Ascii (false, false, true, false, true, false, true,
+            false)), (String ((Ascii (true, true, false, false, true, true,
+            true, false)), (String ((Ascii (true, false, false, false, false,
+            false, true, false)), (String ((Ascii (true, true, false, false,
+            true, true, true, false)), (String ((Ascii (true, false, true,
+            false, false, false, true, false)), (String ((Ascii (false,
+            false, false, true, true, true, true, false)), (String ((Ascii
+            (false, false, false, false, true, true, true, false)), (String
+            ((Ascii (false, true, false, false, true, true, true, false)),
+            (String ((Ascii (true, false, true, false, false, true, true,
+            false)), (String ((Ascii (true, true, false, false, true, true,
+            true, false)), (String ((Ascii (true, true, false, false, true,
+            true, true, false)), (String ((Ascii (true, false, false, true,
+            false, true, true, false)), (String ((Ascii (true, true, true,
+            true, false, true, true, false)), (String ((Ascii (false, true,
+            true, true, false, true, true, false)),
+            EmptyString)))))))))))))))))))))))))))) t))
+        (sq (String ((Ascii (false, false, true, false, true, false, true,
+          false)), (String ((Ascii (true, true, false, false, true, true,
+          true, false)), (String ((Ascii (false, true, true, true, false,
+          false, true, false)), (String ((Ascii (true, true, true, true,
+          false, true, true, false)), (String ((Ascii (false, true, true,
+          true, false, true, true, false)), (String ((Ascii (false, true,
+          true, true, false, false, true, false)), (String ((Ascii (true,
+          false, true, false, true, true, true, false)), (String ((Ascii
+          (false, false, true, true, false, true, true, false)), (String
+          ((Ascii (false, false, true, true, false, true, true, false)),
+          (String ((Ascii (true, false, true, false, false, false, true,
+          false)), (String ((Ascii (false, false, false, true, true, true,
+          true, false)), (String ((Ascii (false, false, false, false, true,
+          true, true, false)), (String ((Ascii (false, true, false, false,
+          true, true, true, false)), (String ((Ascii (true, false, true,
+          false, false, true, true, false)), (String ((Ascii (true, true,
+          false, false, true, true, true, false)), (String ((Ascii (true,
+          true, false, false, true, true, true, false)), (String ((Ascii
+          (true, false, false, true, false, true, true, false)), (String
+          ((Ascii (true, true, true, true, false, true, true, false)),
+          (String ((Ascii (false, true, true, true, false, true, true,
+          false)), EmptyString)))))))))))))))))))))))))))))))))))))) t))
+      (sq (String ((Ascii (false, false, true, false, true, false, true,
+        false)), (String ((Ascii (true, true, false, false, true, true, true,
+        false)), (String ((Ascii (true, true, false, false, true, false,
+        true, false)), (String ((Ascii (true, false, false, false, false,
+        true, true, false)), (String ((Ascii (false, false, true, false,
+        true, true, true, false)), (String ((Ascii (true, false, false, true,
+        false, true, true, false)), (String ((Ascii (true, true, false,
+        false, true, true, true, false)), (String ((Ascii (false, true, true,
+        false, false, true, true, false)), (String ((Ascii (true, false,
+        false, true, false, true, true, false)), (String ((Ascii (true,
+        false, true, false, false, true, true, false)), (String ((Ascii
+        (true, true, false, false, true, true, true, false)), (String ((Ascii
+        (true, false, true, false, false, false, true, false)), (String
+        ((Ascii (false, false, false, true, true, true, true, false)),
+        (String ((Ascii (false, false, false, false, true, true, true,
+        false)), (String ((Ascii (false, true, false, false, true, true,
+        true, false)), (String ((Ascii (true, false, true, false, false,
+        true, true, false)), (String ((Ascii (true, true, false, false, true,
+        true, true, false)), (String ((Ascii (true, true, false, false, true,
+        true, true, false)), (String ((Ascii (true, false, false, true,
+        false, true, true, false)), (String ((Ascii (true, true, true, true,
+        false, true, true, false)), (String ((Ascii (false, true, true, true,
+        false, true, true, false)),
+        EmptyString)))))))))))))))))))))))))))))))))))))))))) t))
+    (sq (String ((Ascii (false, false, true, false, true, false, true,
+      false)), (String ((Ascii (true, true, false, false, true, true, true,
+      false)), (String ((Ascii (false, false, true, false, true, false, true,
+      false)), (String ((Ascii (true, false, false, true, true, true, true,
+      false)), (String ((Ascii (false, false, false, false, true, true, true,
+      false)), (String ((Ascii (true, false, true, false, false, true, true,
+      false)), (String ((Ascii (true, false, false, false, false, false,
+      true, false)), (String ((Ascii (true, true, false, false, true, true,
+      true, false)), (String ((Ascii (true, true, false, false, true, true,
+      true, false)), (String ((Ascii (true, false, true, false, false, true,
+      true, false)), (String ((Ascii (false, true, false, false, true, true,
+      true, false)), (String ((Ascii (false, false, true, false, true, true,
+      true, false)), (String ((Ascii (true, false, false, true, false, true,
+      true, false)), (String ((Ascii (true, true, true, true, false, true,
+      true, false)), (String ((Ascii (false, true, true, true, false, true,
+      true, false)), EmptyString)))))))))))))))))))))))))))))) t)
+| Ident (_, _, _) -> true
+| Paren _ -> true
+| Member (_, _) -> true
+| _ -> false
+
+(** val vmodel_target_check : node -> st -> st **)
+
+let vmodel_target_check v s =
+  if is_assignable v
+  then s
+  else add_diag (String ((Ascii (false, false, false, false, false, true,
+         true, false)), (String ((Ascii (false, true, true, false, true,
+         true, true, false)), (String ((Ascii (true, false, true, true,
+         false, true, false, false)), (String ((Ascii (true, false, true,
+         true, false, true, true, false)), (String ((Ascii (true, true, true,
+         true, false, true, true, false)), (String ((Ascii (false, false,
+         true, false, false, true, true, false)), (String ((Ascii (true,
+         false, true, false, false, true, true, false)), (String ((Ascii
+         (false, false, true, true, false, true, true, false)), (String
+         ((Ascii (false, false, false, false, false, true, true, false)),
+         (String ((Ascii (false, false, false, false, false, true, false,
+         false)), (String ((Ascii (true, false, true, true, false, true,
+         true, false)), (String ((Ascii (true, false, true, false, true,
+         true, true, false)), (String ((Ascii (true, true, false, false,
+         true, true, true, false)), (String ((Ascii (false, false, true,
+         false, true, true, true, false)), (String ((Ascii (false, false,
+         false, false, false, true, false, false)), (String ((Ascii (false,
+         true, false, false, false, true, true, false)), (String ((Ascii
+         (true, false, true, false, false, true, true, false)), (String
+         ((Ascii (false, false, false, false, false, true, false, false)),
+         (String ((Ascii (false, true, false, false, false, true, true,
+         false)), (String ((Ascii (true, true, true, true, false, true, true,
+         false)), (String ((Ascii (true, false, true, false, true, true,
+         true, false)), (String ((Ascii (false, true, true, true, false,
+         true, true, false)), (String ((Ascii (false, false, true, false,
+         false, true, true, false)), (String ((Ascii (false, false, false,
+         false, false, true, false, false)), (String ((Ascii (false, false,
+         true, false, true, true, true, false)), (String ((Ascii (true, true,
+         true, true, false, true, true, false)), (String ((Ascii (false,
+         false, false, false, false, true, false, false)), (String ((Ascii
+         (true, false, false, false, false, true, true, false)), (String
+         ((Ascii (false, true, true, true, false, true, true, false)),
+         (String ((Ascii (false, false, false, false, false, true, false,
+         false)), (String ((Ascii (true, false, false, false, false, true,
+         true, false)), (String ((Ascii (true, true, false, false, true,
+         true, true, false)), (String ((Ascii (true, true, false, false,
+         true, true, true, false)), (String ((Ascii (true, false, false,
+         true, false, true, true, false)), (String ((Ascii (true, true, true,
+         false, false, true, true, false)), (String ((Ascii (false, true,
+         true, true, false, true, true, false)), (String ((Ascii (true,
+         false, false, false, false, true, true, false)), (String ((Ascii
+         (false, true, false, false, false, true, true, false)), (String
+         ((Ascii (false, false, true, true, false, true, true, false)),
+         (String ((Ascii (true, false, true, false, false, true, true,
+         false)), (String ((Ascii (false, false, false, false, false, true,
+         false, false)), (String ((Ascii (true, false, true, false, false,
+         true, true, false)), (String ((Ascii (false, false, false, true,
+         true, true, true, false)), (String ((Ascii (false, false, false,
+         false, true, true, true, false)), (String ((Ascii (false, true,
+         false, false, true, true, true, false)), (String ((Ascii (true,
+         false, true, false, false, true, true, false)), (String ((Ascii
+         (true, true, false, false, true, true, true, false)), (String
+         ((Ascii (true, true, false, false, true, true, true, false)),
+         (String ((Ascii (true, false, false, true, false, true, true,
+         false)), (String ((Ascii (true, true, true, true, false, true, true,
+         false)), (String ((Ascii (false, true, true, true, false, true,
+         true, false)), (String ((Ascii (false, false, false, false, false,
+         true, false, false)), (String ((Ascii (false, false, false, true,
+         false, true, false, false)), (String ((Ascii (true, false, false,
+         true, false, true, true, false)), (String ((Ascii (false, false,
+         true, false, false, true, true, false)), (String ((Ascii (true,
+         false, true, false, false, true, true, false)), (String ((Ascii
+         (false, true, true, true, false, true, true, false)), (String
+         ((Ascii (false, false, true, false, true, true, true, false)),
+         (String ((Ascii (true, false, false, true, false, true, true,
+         false)), (String ((Ascii (false, true, true, false, false, true,
+         true, false)), (String ((Ascii (true, false, false, true, false,
+         true, true, false)), (String ((Ascii (true, false, true, false,
+         false, true, true, false)), (String ((Ascii (false, true, false,
+         false, true, true, true, false)), (String ((Ascii (false, false,
+         false, false, false, true, false, false)), (String ((Ascii (true,
+         true, true, true, false, true, true, false)), (String ((Ascii
+         (false, true, false, false, true, true, true, false)), (String
+         ((Ascii (false, false, false, false, false, true, false, false)),
+         (String ((Ascii (true, false, true, true, false, true, true,
+         false)), (String ((Ascii (true, false, true, false, false, true,
+         true, false)), (String ((Ascii (true, false, true, true, false,
+         true, true, false)), (String ((Ascii (false, true, false, false,
+         false, true, true, false)), (String ((Ascii (true, false, true,
+         false, false, true, true, false)), (String ((Ascii (false, true,
+         false, false, true, true, true, false)), (String ((Ascii (false,
+         false, false, false, false, true, false, false)), (String ((Ascii
+         (true, false, true, false, false, true, true, false)), (String
+         ((Ascii (false, false, false, true, true, true, true, false)),
+         (String ((Ascii (false, false, false, false, true, true, true,
+         false)), (String ((Ascii (false, true, false, false, true, true,
+         true, false)), (String ((Ascii (true, false, true, false, false,
+         true, true, false)), (String ((Ascii (true, true, false, false,
+         true, true, true, false)), (String ((Ascii (true, true, false,
+         false, true, true, true, false)), (String ((Ascii (true, false,
+         false, true, false, true, true, false)), (String ((Ascii (true,
+         true, true, true, false, true, true, false)), (String ((Ascii
+         (false, true, true, true, false, true, true, false)), (String
+         ((Ascii (true, false, false, true, false, true, false, false)),
+         (String ((Ascii (false, true, true, true, false, true, false,
+         false)),
+         EmptyString))))))))))))))))))))))))))))))))))))))))))))))))))))))))))))))))))))))))))))))))))))))))))))))))))))))))))))))))))))))))))))))))))))))))))))))))))))))))))))))))))))))))))))
+         s
+
 (** val parse_v_model :
     node -> bool -> node option -> str list -> st -> directive * st **)
 
@@ -743,13 +962,14 @@ let parse_v_model value is_component argument splitted s =
   let (p, modifiers) = vmodel_parts attr_value is_component argument splitted
   in
   let (value', argument0) = p in
+  let s2 = vmodel_target_check value' s1 in
   ((DVModel (argument0,
   (if (&&) (negb is_component) (nonempty_mods modifiers)
    then or_void0 argument0
    else argument0),
   (match modifiers with
    | Some m -> transform_modifiers m is_component
-   | None -> None), value')), s1)
+   | None -> None), value')), s2)
 
 (** val parse_v_slots : node -> directive **)
 
